@@ -617,3 +617,59 @@ func lastStoreBefore(load *ssa.UnOp, a *ssa.Alloc) *ssa.Store {
 }
 
 func constantInt(n int64) constant.Value { return constant.MakeInt64(n) }
+
+// OnlyFacts: every branch fact that holds at site is one of the allowed ones
+// (or plain loop control). It catches a guard that was *narrowed* by an extra
+// conjunct — "re-activated when waiting and the window grew" must not become
+// "... and some cached counter says so".
+func (c *Ctx) OnlyFacts(site ssa.Instruction, label string, allowed ...FM) bool {
+	c.inst(label + " @ " + c.siteStr(site))
+	c.nontrivial(label + c.siteStr(site))
+	ok := true
+	for _, fc := range FactsAt(site) {
+		if isLoopControlFact(fc) {
+			continue
+		}
+		hit := false
+		for _, a := range allowed {
+			if a(fc) {
+				hit = true
+				break
+			}
+		}
+		if !hit {
+			// a truth fact whose comparison form is allowed is fine too
+			if fc.Kind == "truth" {
+				if b, isB := fc.X.(*ssa.BinOp); isB && isCmp(b.Op) {
+					continue // its "cmp" twin is judged instead
+				}
+				if u, isU := fc.X.(*ssa.UnOp); isU && u.Op == token.NOT {
+					continue
+				}
+			}
+			c.violate(site, site.Parent(), label, label+": reached only under an additional condition that the property does not allow: "+fc.String(), nil)
+			ok = false
+		}
+	}
+	return ok
+}
+
+// isLoopControlFact: `range` continuation tests (next#0 is true, rangeindex < len).
+func isLoopControlFact(fc Fact) bool {
+	switch fc.Kind {
+	case "truth":
+		if e, ok := fc.X.(*ssa.Extract); ok && e.Index == 0 {
+			if _, isNext := e.Tuple.(*ssa.Next); isNext {
+				return true
+			}
+		}
+		if b, ok := fc.X.(*ssa.BinOp); ok && b.Op == token.LSS && isRangeIndex(b.X) {
+			return true
+		}
+	case "cmp":
+		if isRangeIndex(fc.X) || isRangeIndex(fc.Y) {
+			return true
+		}
+	}
+	return false
+}
